@@ -472,6 +472,57 @@ func fixed() []Case {
 		{Supers: []int{1}, Slots: []Slot{sl("s0", "100", "i0")}},
 		{Supers: []int{}, Slots: []Slot{sl("s0", "200", "j0"), sl("s1", "211", "i1", "j1")}},
 	}})
+	// Redefinition of a class (c0) that has 3..6 subclasses, some of them through
+	// another subclass and some unrelated to that chain: the new definition adds a
+	// superclass (the last class), adds a slot and changes an initform, and must
+	// reach every subclass. How the interpreter walks the subclasses depends on map
+	// iteration order, so every shape is repeated 20 times with 8 drawn definition
+	// orders each (fresh class names per order).
+	shapes := []struct {
+		note   string
+		supers [][]int // supers of the subclasses c1..; c0 and the last class have none
+	}{
+		{"chain and sibling", [][]int{{0}, {1}, {0}}},
+		{"chain and two siblings", [][]int{{0}, {1}, {0}, {0}}},
+		{"two chains", [][]int{{0}, {1}, {0}, {3}}},
+		{"diamond and sibling", [][]int{{0}, {0}, {1, 2}, {0}}},
+		{"chain of three, chain of two, sibling", [][]int{{0}, {1}, {2}, {0}, {4}, {0}}},
+	}
+	for si, sh := range shapes {
+		n := len(sh.supers) + 2
+		z := n - 1
+		classes := []Class{{Supers: []int{}, Slots: []Slot{acc(sl("s0", "100", "i0"), true, false, false), sl("s1", "111")}}}
+		for k, sup := range sh.supers {
+			cl := Class{Supers: sup}
+			switch k % 3 {
+			case 0:
+				cl.Slots = []Slot{sl("s1", strconv.Itoa(211+100*k), "i1")}
+			case 1:
+				cl.Slots = []Slot{sl("s0", "")} // shadows without an initform: the initform of c0 shows through
+			default:
+				cl.Slots = []Slot{}
+			}
+			classes = append(classes, cl)
+		}
+		classes = append(classes, Class{Supers: []int{}, Slots: []Slot{sl("s2", "922", "i2")}})
+		redef := &Redef{Class: 0, Skew: -1, Def: Class{Supers: []int{z},
+			Slots: []Slot{acc(sl("s0", "105", "i0"), true, false, false), sl("s3", "135", "i3")}}}
+		for rep := 0; rep < 20; rep++ {
+			pr := rand.New(rand.NewPCG(uint64(1000+si), uint64(rep)))
+			c := Case{Note: fmt.Sprintf("redefine class with subclasses: %s, repetition %d", sh.note, rep), Classes: classes,
+				Universe: []string{"s0", "s1", "s2", "s3", "zz"}, Redef: redef, Meth: []int{z, 1 + rep%len(sh.supers)}, MethTop: rep%4 == 0,
+				Meth2: [][2]int{{z, z}, {0, 1 + (rep+1)%len(sh.supers)}}, MaxArgs: 3}
+			seen := map[string]bool{}
+			for len(c.Perms) < 8 {
+				ps := permString(pr.Perm(n))
+				if !seen[ps] {
+					seen[ps] = true
+					c.Perms = append(c.Perms, ps)
+				}
+			}
+			out = append(out, c)
+		}
+	}
 	return out
 }
 
